@@ -83,6 +83,23 @@ CHECKS['C20'] = (
     'real to_string(ptb) -> real read_ptb and real ja_of -> real read_ccgbank (plain + injected bank annotations) -> structural comparison; '
     'truncated / closer-deleted PTB lines must raise',
     'Unary and binary nodes, bracket tokens, ~18000 incomplete lines per quick run.', 'Token domains per DESIGN C20.', '§5 C20')
+CHECKS['C12'] = (
+    'parser half: node label/symbol/head flag vs the grammar results for the node\'s children in table grammars with unique labels (real '
+    'search, plain + ASan); reader half: trees read by the real readers / Tree.of_nltk_tree judged against the active grammar',
+    'Same-category-different-label results, several differently labelled unary targets, left/right/mixed heads; auto, xml, jigg_xml, ptb and '
+    'nltk-style input for both languages; underivable nodes must be unk.', SEARCH_NOTE, '§3 C12a / §5 C12b')
+CHECKS['C15'] = (
+    'real to_string(xml)->real read_xml, real to_string(jigg_xml)->real read_jigg_xml (ja), integrity monitor over every Jigg document, real '
+    'build_ccg_tree isomorphism and real normalize_tokens',
+    'Batches x n-best, licensed and arbitrary trees, hostile XML-representable tokens.', 'Trusts vlib/codecs.py; "logic punctuation" = . , ( ) ! - and lone & / -.', '§5 C15')
+CHECKS['C18'] = (
+    'deep object-graph fingerprint before/after every rendering + output equality against the same rendering of a pristine deep copy, over '
+    'random format sequences on the same objects',
+    'All CLI formats via to_string and the per-format functions, sequences of 2-6 renderings with repeats.', 'Fingerprint covers Tree/Token/Category objects.', '§5 C18')
+CHECKS['C19'] = (
+    'no-exception + batch-isolation monitor over every CLI format (list read from depccg/argparse.py) for trees covering every label the rule '
+    'functions emit and the placeholder obtained from the real search',
+    'ccg2lambda/jigg_xml_ccg2lambda are NOT covered (nltk missing) - stated gap.', 'Label coverage is enforced: a run that did not render every reachable label is inconclusive.', '§5 C19')
 
 NOT_YET = {}
 
